@@ -35,6 +35,9 @@ def run(tier, seed):
         pv = g.params_values(small=True)
         x = fix_domain(p, st["comps"], g.state(nc, "boundary"))
         t = gen.dy(g.rng, 0, 24, 2)
+        if p["cls"] in ("closed", "replacement") and (len(out) // 3) % 2 == 0 and not any(o["op"] == "rebalance" for o in p["ops"]):
+            # the population given as a whole array of integers (an integer-typed NumPy array)
+            p["ops"].append({"op": "arraypop", "arr": [str(g.rng.randint(0, 400)) for _ in range(nc)], "int_array": True})
         obs = [{"obs": "struct"}, {"obs": "onestep", "params": pv, "t": t, "x": x},
                {"obs": "oracle", "name": "c02", "params": pv, "t": t, "x": x}]
         if p["cls"] in ("closed", "replacement"):
